@@ -1,17 +1,224 @@
 import CoupeModel.Model.Basic
 import CoupeModel.Model.MultiJagged
+import CoupeModel.Proofs.MultiJagged
+
+/-!
+# C11 — MultiJagged yields a balanced jagged hierarchy with the requested part count
+
+Property theorems only (lemmas: `Proofs/MultiJagged.lean`, `Proofs/MultiJaggedArith.lean`).
+
+Parameters of the model and the hypotheses the theorems put on them:
+* `root` (`f32` `powf(..).ceil()`): `RootOk root`;
+* `sort` (`axis_sort`): `SortOk sort` – a permutation of the slab, non-decreasing in the key;
+* `chunk` (block lengths of the parallel scan): `ChunkOk chunk` – the blocks cover the slab.
+Weights are exact (`Nat`); thresholds `total · A / den` are compared by cross-multiplication.
+-/
 
 namespace Coupe.MultiJagged
+
+/-- No abort while the scheme is computed: with `part_count ≥ 1` and `max_iter ≥ 1` no
+remainder by zero and no `max_iter - 1` underflow is reached (the recursion arrives at
+`max_iter = 0` only with `num_parts = 1`, where `rem = 0` and `next = None`). -/
+theorem scheme_total {root : Nat → Nat → Nat} (hr : RootOk root) (n m : Nat)
+    (hn : 1 ≤ n) (hm : 1 ≤ m) : ∃ s, scheme root n m = some s := by
+  obtain ⟨s, hs, _⟩ := scheme_ok hr m n hn (by omega)
+  exact ⟨s, hs⟩
+
+/-- The scheme has exactly `part_count` leaves, at most `max_iter` split levels, and is
+well formed (one child and one modifier per slab, modifier = child's leaves / node's leaves). -/
+theorem scheme_leaves {root : Nat → Nat → Nat} (hr : RootOk root) (n m : Nat)
+    (hn : 1 ≤ n) (hm : 1 ≤ m) (s : Scheme) (h : scheme root n m = some s) :
+    s.leaves = n ∧ s.depth ≤ m ∧ s.WF := by
+  obtain ⟨s', hs', h1, h2, h3⟩ := scheme_ok hr m n hn (by omega)
+  rw [h] at hs'
+  cases hs'
+  exact ⟨h1, h2, h3⟩
+
+/-- What the scan and the refinement loop compute (exact arithmetic, any chunking):
+one `specIdx` per threshold `total · A / den`, `A` the running sums of all modifiers but
+the last … -/
+theorem split_index_spec (chunks ws perm mods : List Nat) (den : Nat)
+    (hm : mods ≠ []) (hp : ∀ i ∈ perm, i < ws.length) (hc : chunks.sum = perm.length) :
+    splitPositions {} chunks ws perm mods den =
+      some ((cumul mods.dropLast 0).map
+        (fun A => specIdx (slabW ws perm).sum den A (slabW ws perm))) :=
+  splitPositions_eq chunks ws perm mods den hm hp hc
+
+/-- … and `specIdx` is the least index whose prefix sum `w₀+…+wᵢ` exceeds the threshold,
+or the slab's length when no prefix sum does (`pre sw k` = sum of the first `k` weights). -/
+theorem split_index_least (total den A : Nat) (sw : List Nat) :
+    specIdx total den A sw ≤ sw.length ∧
+    (∀ t, t < specIdx total den A sw → pre sw (t + 1) * den ≤ total * A) ∧
+    (specIdx total den A sw < sw.length →
+      total * A < pre sw (specIdx total den A sw + 1) * den) :=
+  specIdx_spec total den A sw
+
+/-- The split positions do not depend on how rayon cuts the scan into blocks. -/
+theorem split_chunk_free (chunks₁ chunks₂ ws perm mods : List Nat) (den : Nat)
+    (hp : ∀ i ∈ perm, i < ws.length)
+    (h₁ : chunks₁.sum = perm.length) (h₂ : chunks₂.sum = perm.length) :
+    splitPositions {} chunks₁ ws perm mods den = splitPositions {} chunks₂ ws perm mods den := by
+  by_cases hm : mods = []
+  · subst hm; rfl
+  · rw [splitPositions_eq _ _ _ _ _ hm hp h₁, splitPositions_eq _ _ _ _ _ hm hp h₂]
+
+/-- The positions are non-decreasing, at most the slab's length, one per modifier but the last. -/
+theorem split_positions_monotone_le_len (chunks ws perm mods : List Nat) (den : Nat)
+    (hp : ∀ i ∈ perm, i < ws.length) (hc : chunks.sum = perm.length) (pos : List Nat)
+    (h : splitPositions {} chunks ws perm mods den = some pos) :
+    pos.Pairwise (· ≤ ·) ∧ (∀ p ∈ pos, p ≤ perm.length) ∧ pos.length + 1 = mods.length := by
+  have hm : mods ≠ [] := by
+    intro h0; subst h0; simp [splitPositions] at h
+  rw [splitPositions_eq _ _ _ _ _ hm hp hc] at h
+  cases h
+  have := spec_positions_sorted (slabW ws perm).sum den (slabW ws perm) mods.dropLast 0
+  refine ⟨this.1, fun p hp' => by simpa [slabW] using this.2 p hp', ?_⟩
+  rw [List.length_map, cumul_length, List.length_dropLast]
+  have : 0 < mods.length := List.length_pos_iff.2 hm
+  omega
+
+/-- On such positions `split_at_mut_many` neither underflows (`*pos - drained_count`) nor
+splits beyond the slice; it returns `positions.len() + 1` consecutive pieces of the slice. -/
+theorem split_many_total {α} (l : List α) (pos : List Nat)
+    (hs : pos.Pairwise (· ≤ ·)) (hb : ∀ p ∈ pos, p ≤ l.length) :
+    ∃ subs, splitMany l pos = some subs ∧ subs.flatten = l ∧ subs.length = pos.length + 1 := by
+  refine ⟨segs l 0 pos, splitManyAux_eq pos l 0 hs (fun p hp => ⟨Nat.zero_le _, by simpa using hb p hp⟩),
+    segs_flatten _ _ _, segs_length _ _ _⟩
+
+section run
+variable {root : Nat → Nat → Nat} {sort : (Nat → Int) → List Nat → List Nat} {chunk : Nat → List Nat}
+
+/-- The run does not abort and yields a hierarchy with all the facts of `recurse_spec`. -/
+theorem run_spec (hr : RootOk root) (hs : SortOk sort) (hc : ChunkOk chunk)
+    (dim : Nat) (key : Nat → Nat → Int) (ws : List Nat) (n numParts maxIter wmax : Nat)
+    (hn : 1 ≤ numParts) (hm : 1 ≤ maxIter) (hws : n ≤ ws.length)
+    (hw : ∀ w ∈ ws, w ≤ wmax) (hwmax : 0 < wmax) :
+    ∃ s h, scheme root numParts maxIter = some s ∧ s.leaves = numParts ∧ s.depth ≤ maxIter ∧
+      run {} root sort chunk dim key ws n numParts maxIter = some h ∧
+      ChildOk dim key ws wmax 0 s (List.range n) h := by
+  obtain ⟨s, hsch, hl, hd, hwf⟩ := scheme_ok hr maxIter numParts hn (by omega)
+  obtain ⟨h, hh, hok⟩ := recurse_spec (sort := sort) (chunk := chunk) dim key ws hs hc wmax hw hwmax
+    s hwf 0 (List.range n) (fun i hi => by have := List.mem_range.1 hi; omega)
+  exact ⟨s, h, hsch, hl, hd, by simp [run, hsch, hh], hok⟩
+
+/-- Ids: the run does not abort; there are exactly `part_count` leaves; every element
+`i < n` lies in a leaf `k < part_count` and the leaf writes store `ren k` at `i`, whatever
+renaming `ren` of the leaf numbers the `fetch_add` order induces (ids `< part_count` as soon
+as `ren` maps `[0, part_count)` into itself); no element is written twice (`Nodup`). -/
+theorem mj_ids (hr : RootOk root) (hs : SortOk sort) (hc : ChunkOk chunk)
+    (dim : Nat) (key : Nat → Nat → Int) (ws : List Nat) (n numParts maxIter : Nat)
+    (hn : 1 ≤ numParts) (hm : 1 ≤ maxIter) (hws : n ≤ ws.length) :
+    ∃ h, run {} root sort chunk dim key ws n numParts maxIter = some h ∧
+      h.leaves.length = numParts ∧ h.elems.Perm (List.range n) ∧ h.elems.Nodup ∧
+      ∀ (ren : Nat → Nat) (p0 : List Nat), p0.length = n →
+        (assign ren h.leaves p0).length = n ∧
+        ∀ i, i < n → ∃ k, ∃ hk : k < h.leaves.length,
+          i ∈ h.leaves[k] ∧ (assign ren h.leaves p0)[i]? = some (ren k) := by
+  obtain ⟨s, h, _, hl, _, hrun, hperm, hlen, _, _⟩ :=
+    run_spec hr hs hc dim key ws n numParts maxIter (ws.sum + 1) hn hm hws
+      (fun w hw => by have := mem_le_sum ws w hw; omega) (by omega)
+  have hnd : h.elems.Nodup := hperm.nodup_iff.2 List.nodup_range
+  refine ⟨h, hrun, by omega, hperm, hnd, ?_⟩
+  intro ren p0 hp0
+  rw [assign_eq]
+  refine ⟨by rw [assignFrom_length, hp0], ?_⟩
+  intro i hi
+  have hmem : i ∈ h.leaves.flatten := hperm.mem_iff.2 (List.mem_range.2 hi)
+  obtain ⟨l, hl', hil⟩ := List.mem_flatten.1 hmem
+  obtain ⟨k, hk, rfl⟩ := List.getElem_of_mem hl'
+  refine ⟨k, hk, hil, ?_⟩
+  have := assignFrom_mem ren h.leaves 0 p0 hnd
+    (fun j hj => by have := List.mem_range.1 (hperm.mem_iff.1 hj); omega) k hk i hil
+  simpa using this
+
+/-- The parts form a jagged hierarchy: at every node the slabs are ordered along the
+node's axis (no coordinate of a slab exceeds a coordinate of a later slab) and every slab
+is subdivided in the same way along the next axis, cyclically, starting with axis 0. -/
+theorem mj_jagged (hr : RootOk root) (hs : SortOk sort) (hc : ChunkOk chunk)
+    (dim : Nat) (key : Nat → Nat → Int) (ws : List Nat) (n numParts maxIter : Nat)
+    (hn : 1 ≤ numParts) (hm : 1 ≤ maxIter) (hws : n ≤ ws.length) (h : Hier)
+    (hrun : run {} root sort chunk dim key ws n numParts maxIter = some h) :
+    h.Jagged key dim 0 := by
+  obtain ⟨s, h', _, _, _, hrun', _, _, hj, _⟩ :=
+    run_spec hr hs hc dim key ws n numParts maxIter (ws.sum + 1) hn hm hws
+      (fun w hw => by have := mem_le_sum ws w hw; omega) (by omega)
+  rw [hrun] at hrun'
+  cases hrun'
+  exact hj
+
+/-- Balance: with strictly positive weights every part's weight `W` (empty parts included)
+satisfies `|part_count · W − total| < part_count · (max_iter + 1) · wmax`, `wmax` the
+largest element weight – i.e. `W` differs from `total / part_count` by less than
+`(max_iter + 1) · wmax`.  (The proof gives `part_count · depth · wmax` with
+`depth ≤ max_iter` the number of split levels.) -/
+theorem mj_balance (hr : RootOk root) (hs : SortOk sort) (hc : ChunkOk chunk)
+    (dim : Nat) (key : Nat → Nat → Int) (ws : List Nat) (numParts maxIter wmax : Nat)
+    (hn : 1 ≤ numParts) (hm : 1 ≤ maxIter)
+    (hpos : ∀ w ∈ ws, 0 < w) (hmax : ∀ w ∈ ws, w ≤ wmax) (hmem : wmax ∈ ws) (h : Hier)
+    (hrun : run {} root sort chunk dim key ws ws.length numParts maxIter = some h) :
+    ∀ l ∈ h.leaves,
+      ((numParts : Int) * wt ws l - ws.sum).natAbs < numParts * (maxIter + 1) * wmax := by
+  have hwmax : 0 < wmax := hpos wmax hmem
+  obtain ⟨s, h', _, hl, hd, hrun', _, _, _, hbal⟩ :=
+    run_spec hr hs hc dim key ws ws.length numParts maxIter wmax hn hm (Nat.le_refl _) hmax hwmax
+  rw [hrun] at hrun'
+  cases hrun'
+  intro l hl'
+  obtain ⟨h1, h2⟩ := hbal l hl'
+  rw [hl] at h1 h2
+  have hwt : wt ws (List.range ws.length) = ws.sum := by rw [wt, slabW_range]
+  rw [hwt] at h1 h2
+  have hb : (numParts : Int) * s.depth * wmax ≤ numParts * maxIter * wmax := by
+    have : numParts * s.depth * wmax ≤ numParts * maxIter * wmax :=
+      Nat.mul_le_mul_right _ (Nat.mul_le_mul_left _ hd)
+    exact_mod_cast this
+  have hlt : (numParts : Int) * maxIter * wmax < ((numParts * (maxIter + 1) * wmax : Nat) : Int) := by
+    have : numParts * maxIter * wmax < numParts * (maxIter + 1) * wmax := by
+      have h0 : 0 < numParts * wmax := Nat.mul_pos hn hwmax
+      rw [Nat.mul_add, Nat.add_mul, Nat.mul_one]
+      omega
+    exact_mod_cast this
+  omega
+
+end run
 
 /-- K4 witness: 4 points on a line, weights `[10,1,1,1]`, 4 parts, `max_iter = 2`. -/
 def k4key : Nat → Nat → Int := fun c i => if c = 0 then (i : Int) else -(i : Int)
 
+/-- Regression witness of K4: the pinned upstream code (`scan.next().unwrap()`, model
+`guarded := false`) aborts on this input – the heavy first element makes the first slab
+empty and the recursion scans an empty permutation; the code as it is now returns the four
+parts `∅, ∅, {3,2,1}, {0}`. -/
 theorem mj_empty_slab_counterexample :
     run { guarded := false } iroot isort (fun n => [n]) 2 k4key [10, 1, 1, 1] 4 4 2 = none ∧
     (run {} iroot isort (fun n => [n]) 2 k4key [10, 1, 1, 1] 4 4 2).map Hier.leaves
       = some [[], [], [3, 2, 1], [0]] := by
   decide
 
+/-- Non-vacuity: the parameter hypotheses are met by concrete instances (`isort`, the
+one-block chunking, the root "split into `n` at once"), and on the K4 input the hypotheses of
+`mj_balance` hold (`wmax = 10 ∈ ws`, all weights positive). -/
+example : SortOk isort := isort_ok
+example : ChunkOk (fun n => [n]) := fun n => by simp
+example : RootOk iroot := iroot_ok
+example : RootOk (fun n _ => n) :=
+  ⟨fun _ _ h => h, fun _ _ _ _ => Nat.le_refl _, fun _ _ h _ => h, fun _ _ => rfl, rfl⟩
+example : (∀ w ∈ [10, 1, 1, 1], 0 < w) ∧ (∀ w ∈ [10, 1, 1, 1], w ≤ 10) ∧ 10 ∈ [10, 1, 1, 1] := by
+  decide
+example : splitPositions {} [2, 2, 2] [1, 1, 1, 1, 1, 1] [0, 1, 2, 3, 4, 5] [1, 1, 1] 3 = some [2, 4] := by
+  decide
+
 end Coupe.MultiJagged
 
+#print axioms Coupe.MultiJagged.scheme_total
+#print axioms Coupe.MultiJagged.scheme_leaves
+#print axioms Coupe.MultiJagged.split_index_spec
+#print axioms Coupe.MultiJagged.split_index_least
+#print axioms Coupe.MultiJagged.split_chunk_free
+#print axioms Coupe.MultiJagged.split_positions_monotone_le_len
+#print axioms Coupe.MultiJagged.split_many_total
+#print axioms Coupe.MultiJagged.run_spec
+#print axioms Coupe.MultiJagged.mj_ids
+#print axioms Coupe.MultiJagged.mj_jagged
+#print axioms Coupe.MultiJagged.mj_balance
 #print axioms Coupe.MultiJagged.mj_empty_slab_counterexample
